@@ -119,7 +119,7 @@ func runCheck(repo, prop, tier string) int {
 		fmt.Fprintln(os.Stderr, "HARNESS-ERROR:", err)
 		return 2
 	}
-	timeout := 10
+	timeout := 15
 	if tier == "thorough" {
 		timeout = 60
 	}
